@@ -246,6 +246,13 @@ for k, v in TECH_ADD13.items():
     t, txt, note, ref = CLAIMED[k]
     CLAIMED[k] = (t + v, txt, note, ref)
 
+TECH_ADD14 = {
+ "C15": "; the sibling methods of one loader (Load, Exists, GetModifiedTime) apply the same sequence of path and string operations to the template name before touching the file system (R15.17)",
+}
+for k, v in TECH_ADD14.items():
+    t, txt, note, ref = CLAIMED[k]
+    CLAIMED[k] = (t + v, txt, note, ref)
+
 NOT_YET = "static rule for this property not implemented yet at this commit (planned, see DESIGN.md §2)"
 NA = {}
 
